@@ -111,12 +111,13 @@ Fixpoint v2_encode_all (st : cstate) (ms : list message) : bytes :=
 Definition v2_enc_state (st : cstate) (ms : list message) : cstate := fold_left v2_next ms st.
 
 (* the entries of an AppEntries frame. [cnt] = entries still to read; every iteration consumes at
-   least the 8 length bytes, so fuel = S (length s) is never exhausted. *)
-Fixpoint read_entries (fuel : nat) (cnt : N) (acc : list entry) (s : bytes) : dres (list entry * bytes) :=
+   least the 8 length bytes; the fuel is a LIST one longer than the stream (only its length matters: taking
+   the stream itself avoids computing a length per frame), never exhausted. *)
+Fixpoint read_entries (fuel : bytes) (cnt : N) (acc : list entry) (s : bytes) : dres (list entry * bytes) :=
   if cnt =? 0 then DOk (acc, s)
   else match fuel with
-       | O => DErr DFuel
-       | S f =>
+       | [] => DErr DFuel
+       | _ :: f =>
          dlet '(size, s1) <- read_u64 s ;
          if read_bytes_limit <? size then DErr DLimit
          else if (v2_buf_size <? size) && make_panics size 1 then DErr DPanic
@@ -139,7 +140,7 @@ Definition v2_decode (local remote : N) (st : cstate) (s : bytes) : dres (messag
         if read_bytes_limit / 8 <? l then DErr DLimit
         else if make_panics l entry_sizeof then DErr DPanic
         else
-          dlet '(es, s3) <- read_entries (S (length s2)) l [] s2 ;
+          dlet '(es, s3) <- read_entries (0 :: s2) l [] s2 ;
           dlet '(commit, s4) <- read_u64 s3 ;
           DOk (mkMsg msg_app (g_rid (st_tog st)) (g_rid (st_fromg st)) (st_term st) (st_term st) (st_index st)
                      es commit snap0 false 0 None (st_fromg st) (st_tog st),
